@@ -177,8 +177,10 @@ Definition items (d : dir) : res (list (list N * rec)) :=
   do xs <- split_all (groups (d_recs d)); Ok (map (fun x => (fst (fst x), snd x)) xs).
 Definition listing (d : dir) : res (list (list N)) :=                  (* list(index) *)
   do xs <- split_all (groups (d_recs d)); Ok (map (fun x => fst (fst x)) xs).
+(* what _get_unique_sfn compares the tail patterns with: the 8.3 name and the UPPER-CASED long name of
+   every entry (look-ups compare lfn.upper() with the key, so the alias search must too) *)
 Definition existing_of (xs : list (list N * list N * rec)) : list (list N * list N) :=
-  map fst xs.
+  map (fun x => (upper (fst (fst x)), snd (fst x))) xs.
 
 (* ---------------- _update_entry ---------------- *)
 Definition set_nth (i : nat) (x : rec) (l : list rec) : list rec :=
